@@ -8,21 +8,54 @@
 #![allow(clippy::all)]
 #![allow(dead_code)]
 
+extern crate alloc;
+
 pub mod src;
 pub use src::*;
 
+pub mod vmh;
+
+/// Replacement for `alloc::fmt::format` in VM harnesses: error messages are built with
+/// `format!` on paths the harness does not care about, and formatting dominates symbolic
+/// execution time (DESIGN §0). Message *text* is therefore outside every claim.
+/// Replacement for `tracing::level_filters::LevelFilter::current`: no subscriber is installed and
+/// the maximum level is OFF, so every `debug!`/`trace!` site in the interpreter is skipped.
+#[cfg(kani)]
+pub fn stub_level_off() -> tracing::level_filters::LevelFilter {
+    tracing::level_filters::LevelFilter::OFF
+}
+
+#[cfg(kani)]
+pub fn stub_format(_args: core::fmt::Arguments<'_>) -> String {
+    String::new()
+}
+
+pub mod c01;
+pub mod c04;
+pub mod c05;
+pub mod c07;
+pub mod c10;
+pub mod c11;
 pub mod c12;
 pub mod c13;
 pub mod c14;
 pub mod c16;
+pub mod c18;
 pub mod c19;
 
 /// name -> native entry point, used by the replay binary
 pub fn registry() -> Vec<(&'static str, fn(&mut BytesSrc))> {
     let mut v: Vec<(&'static str, fn(&mut BytesSrc))> = Vec::new();
+    c01::register(&mut v);
+    c04::register(&mut v);
+    c05::register(&mut v);
+    c07::register(&mut v);
+    c10::register(&mut v);
+    c11::register(&mut v);
     c12::register(&mut v);
     c13::register(&mut v);
     c16::register(&mut v);
+    c18::register(&mut v);
     c19::register(&mut v);
     c14::register(&mut v);
     v
